@@ -80,7 +80,7 @@ FILES = ['regions/_utils/wcs_helpers.py', 'regions/shapes/circle.py', 'regions/s
          'regions/shapes/rectangle.py', 'regions/shapes/polygon.py', 'regions/shapes/annulus.py',
          'regions/shapes/point.py', 'regions/shapes/line.py', 'regions/shapes/text.py',
          'regions/core/compound.py', 'regions/core/core.py', 'regions/core/pixcoord.py']
-RULE = ('full Cartesian product of region spec (24 geometry variants of 12 classes incl. 3 compounds of two x centre x '
+RULE = ('full Cartesian product of region spec (25 geometry variants of 12 classes incl. 3 compounds of two x centre x '
         '(include flag, meta/visual decoration) variant) x WCS spec (projection x rotation x scale x parity x frame x crval); '
         'one state = one (spec, WCS); per state: to_sky, to_pixel (leg A), harness-built sky region -> to_pixel -> to_sky '
         '(leg B), on every fourth state (chosen by a hash of state index and WCS, so that every geometry meets every frame pair) the '
@@ -92,11 +92,11 @@ RULE = ('full Cartesian product of region spec (24 geometry variants of 12 class
 BOUNDS = {
     'quick': '96 WCS = {TAN,SIN,CAR} x rot {0,30,137,-90} x parity {std,flipped} x {ICRS,FK5,FK4,Galactic}, scale '
              '{2.8e-6,1e-4,1e-2,0.1 deg/px} and crval {(40,20),(0,0),(266,-29)} paired cyclically (phase = VERIF_SEED); '
-             '24 geometry variants x centres {crpix, +(250.25,150.5)} x {(include absent, no meta), (include False, '
-             'meta+visual)} = 96 region specs',
-    'thorough': 'main: 960 WCS = full product of the six axes for ICRS/FK5/Galactic (864) + FK4 x projection x rotation x scale x parity with crval paired cyclically (96) x 24 geometry variants x 3 centres {crpix, +(30.25,-40.5), '
-                '+(250.25,150.5)} x {(include absent, no meta), (include False, meta+visual)} = 144 region specs; '
-                'off-diagonal: the 96 WCS of the quick sub-lattice x 24 x 3 x {(include False, no meta), (include absent, '
+             '25 geometry variants x centres {crpix, +(250.25,150.5)} x {(include absent, no meta), (include False, '
+             'meta+visual)} = 100 region specs',
+    'thorough': 'main: 960 WCS = full product of the six axes for ICRS/FK5/Galactic (864) + FK4 x projection x rotation x scale x parity with crval paired cyclically (96) x 25 geometry variants x 3 centres {crpix, +(30.25,-40.5), '
+                '+(250.25,150.5)} x {(include absent, no meta), (include False, meta+visual)} = 150 region specs; '
+                'off-diagonal: the 96 WCS of the quick sub-lattice x 25 x 3 x {(include False, no meta), (include absent, '
                 'meta+visual)}, so include x decoration is a full product there (the handling of meta/visual does not '
                 'involve the WCS; the split keeps the run under 10 minutes, one FK4 state costs ~95 ms)',
 }
@@ -134,7 +134,7 @@ SIZES = {'circle': ['radius'], 'ellipse': ['width', 'height'], 'rectangle': ['wi
          'rectangleannulus': ['inner_width', 'inner_height', 'outer_width', 'outer_height'],
          'polygon': [], 'regpoly': [], 'point': [], 'line': [], 'text': []}
 ANGLED = ('ellipse', 'rectangle', 'ellipseannulus', 'rectangleannulus')
-OPS = {'and': operator.and_, 'or': operator.or_, 'xor': operator.xor}
+OPS = {'and': operator.and_, 'or': operator.or_, 'xor': operator.xor, 'andnot': G.op_andnot}
 
 
 # ===================================================================== lattice ==
@@ -207,6 +207,10 @@ def geometries(c):
         {'cls': 'compound', 'op': 'and',
          'r1': {'cls': 'ellipse', 'center': c, 'width': 40.0, 'height': 12.0, 'angle': a30},
          'r2': K.polygon_spec('dodecagon', 5.0, c2)},
+        # a caller-supplied operator that is not commutative (set difference): operand order matters
+        {'cls': 'compound', 'op': 'andnot',
+         'r1': {'cls': 'rectangle', 'center': c, 'width': 36.0, 'height': 20.0, 'angle': a30},
+         'r2': {'cls': 'circle', 'center': c2, 'radius': 9.0}},
         {'cls': 'compound', 'op': 'xor',
          'r1': {'cls': 'regpoly', 'center': c, 'n': 5, 'radius': 4.0, 'angle': [12.0, 'deg', 'quantity']},
          'r2': {'cls': 'circleannulus', 'center': c2, 'inner_radius': 1.5, 'outer_radius': 4.0}},
@@ -243,9 +247,9 @@ OFFDIAG = [(False, False), ('absent', True)]
 
 
 def region_specs(tier, part='main'):
-    """quick: 24 geometries x centres {reference pixel, +(250.25,150.5)} x DIAG.
-    thorough 'main': 24 geometries x 3 centres x DIAG (crossed with all 1152 WCS);
-    thorough 'offdiag': 24 geometries x 3 centres x OFFDIAG (crossed with the 96 WCS of the quick sub-lattice), so
+    """quick: 25 geometries x centres {reference pixel, +(250.25,150.5)} x DIAG.
+    thorough 'main': 25 geometries x 3 centres x DIAG (crossed with all 1152 WCS);
+    thorough 'offdiag': 25 geometries x 3 centres x OFFDIAG (crossed with the 96 WCS of the quick sub-lattice), so
     that include {absent, False} x decoration {empty, meta+visual} is a full product on that sub-lattice."""
     offs = [OFFSETS[0], OFFSETS[2]] if tier == 'quick' else OFFSETS
     decos = OFFDIAG if part == 'offdiag' else DIAG
@@ -323,7 +327,10 @@ def build_sky(s, frame):
     c = pts[0]
     ang = G._angle_obj(s.get('angle'))
     akw = {} if ang is None else {'angle': ang}
-    q = lambda name: s[name] * u.deg      # noqa
+    # every size of one region comes in its own angular unit (the same angle, converted by astropy)
+    UN = {'radius': u.arcsec, 'inner_radius': u.arcmin, 'outer_radius': u.arcsec, 'width': u.arcsec, 'height': u.arcmin,
+          'inner_width': u.arcmin, 'outer_width': u.deg, 'inner_height': u.arcsec, 'outer_height': u.rad}
+    q = lambda name: (s[name] * u.deg).to(UN[name])      # noqa
     if cls == 'circle':
         return R.CircleSkyRegion(c, q('radius'), **kw)
     if cls == 'ellipse':
